@@ -26,7 +26,8 @@ RULE = ('random universes; dense valid requests; mutations: xsi:type retag of ev
         '(validators None, soft, lxml), the same retagging on the declared SOAP request header and its descendants (what user code reads as '
         'ctx.in_header; Soap11/Soap12, validators None, soft, lxml), kind swaps scalar/map/list/null at every position of JSON, YAML and MessagePack requests and '
         'wrapper-key renames (validator soft); non-trivial = a mutated request that was processed and classified; distinct by '
-        '(protocol, validator, mutation kind, declared slot shape, substituted kind, outcome).')
+        '(protocol, validator, mutation kind, declared slot shape, substituted kind, outcome).'
+        ' Also: JsonRpc(\'spyne\') as input protocol, attribute-bearing classes in the dict families, one member and one attribute of every primitive kind x every substitute kind (incl. chunk sequences that mix kinds), two unrelated hierarchies with legitimate traffic first; every mutation run is preceded by the unmutated request, which has to be served.')
 ASSUMPTIONS = [
     'native types: int for the integer family, Decimal, float, bool, str, datetime/date/time/timedelta, UUID, list/tuple of bytes for ByteArray, str member name for Enum',
     'an exception escaping the pipeline is also a C10 matter; it is a C04 violation here because the request was not answered with a validation fault',
